@@ -81,8 +81,10 @@ def reset_globals():
     import dawgie.pl.promotion
     from dawgie.db.shelve.state import DBI
 
-    for lst in (farm._busy, farm._cloud, farm._cluster, farm._workers, farm._jobs, farm._reject, farm._repeat):
-        lst.clear()
+    for name in ('_busy', '_cloud', '_cluster', '_workers', '_jobs', '_reject', '_repeat'):
+        lst = getattr(farm, name, None)
+        if lst is not None:
+            lst.clear()
     farm._time.clear()
     farm.insights = {}
     farm.ARCHIVE = False
